@@ -284,7 +284,9 @@ class Interpreter(Interp):
                 self.exec_block(node.body, env)
             except _Continue:
                 pass
-            # (a break / return / raise propagates as a real loop exit)
+            except _Break:
+                return  # real loop exit in the current state (no else clause)
+            # (a return / raise propagates as a real loop exit)
             for i, f in enumerate(spec.inv(self, env, z3.Store(visited, x, z3.BoolVal(True)), members)):
                 eng.oblige(f"{lname}/preserved/{i}", f, kind="loop-preserved")
             raise PathEnd()
